@@ -178,6 +178,17 @@ CHECKS = {
         "Trusted: mc/refs/vt_ref.py (pending wrap, IRM, SO/SI + G1 designation, EL with bce, SGR); expected renditions via c17.want_for/rendition; a resize makes terminal contents unknown.",
         "DESIGN.md §4 C04",
     ),
+    "C13": (
+        MC,
+        "deviation-bounded schedule exploration of the six real event loops under virtual clocks / selectors / pollers / reactors (every wait is a choice point; trio: every scheduler tick), all programs of a small grammar, each execution judged by one contract acceptor over the recorded event trace",
+        "programs: 3 alarms registered out of due order, 2 watches readable together, 0 or 2 idle callbacks, sentinel alarm; callback bodies remove/add alarms, watches and idle callbacks "
+        "(incl. add-then-remove a zero-delay alarm, add an idle callback from a callback), raise ExitMainLoop or Boom; every single body in every slot, every (quick: every third) pair, "
+        "thorough: a 6^3 lattice of triples; x select/asyncio/tornado/twisted/zmq/trio x all schedules with <= 2/3 deviations (trio 1/2); clauses alarm-once, alarm-not-early, alarm-order, "
+        "alarm-removed-never-runs, remove-true-then-false, alarm-eventually, watch-only-while-registered, watch-eventually, idle-after-callback, idle-removed-never-runs, exit-silent, "
+        "raise-once (incl. a second run), only-callback-exceptions, terminates.",
+        "Trusted: mc/virt/loops.py environments behave as a legal OS; idle slack 12 ms virtual; tornado/trio time tolerance 1-2 ms; trio explored through its batch-reversal coin only.",
+        "DESIGN.md §4 C13",
+    ),
 }
 
 PENDING_REASON = "check not built yet in this round (see DESIGN.md Appendix B build order); no claim is made"
